@@ -292,6 +292,13 @@ def bodyPairItems (b1 b2 : Fin M.nbody) (merged : Bool) (chunk : List (Pair M.ng
     [.mid b1 b2 (allToAll M b1 b2 merged chunk)]
   else (allToAll M b1 b2 merged chunk).map .cand
 
+/-- `merged` after the merge loop: the flag is overwritten in every iteration, so it is decided by the last
+    pair of the window `[startadr, pairadr)` (0 when the window is empty) -/
+def mergedOf {n : Nat} (chunk : List (Pair n)) (s : Nat) : Bool :=
+  match chunk.getLast? with
+  | some p => p.signature == s
+  | none => false
+
 /-- the loop over the sorted broad-phase pairs; `last` = `last_signature`, `ps` = pairs from `pairadr` on -/
 def driverLoop : List (Fin M.nbody × Fin M.nbody) → Option Nat → List (Pair M.ngeom) → List (Item M.nbody M.ngeom)
   | [], _, ps => (explicitCands M ps).map .cand
@@ -301,9 +308,7 @@ def driverLoop : List (Fin M.nbody × Fin M.nbody) → Option Nat → List (Pair
     else
       let chunk := ps.takeWhile (fun p => p.signature ≤ s)
       let rest := ps.dropWhile (fun p => p.signature ≤ s)
-      let merged := match chunk.getLast? with
-        | some p => p.signature == s
-        | none => false
+      let merged := mergedOf chunk s
       let dyn := if !canCollide2 M b1 b2 then [] else if excluded M s then [] else bodyPairItems M b1 b2 merged chunk
       (explicitCands M chunk).map .cand ++ dyn ++ driverLoop bfs (some s) rest
 
